@@ -21,6 +21,8 @@ ASSUMPTIONS = ["records LONGER than the header are not specified and not generat
 
 CELLS_FULL = ["", " ", "1", " 2 ", "1.5", "abc", "a,b", 'say "hi"', "x\ny", "1e3", "nan", "inf", "-inf", "Infinity", "0x1", "1_000",
               "é", "x\r\ny", "c\rd", "+3", ".5", "a;b", "t\tu", "١٢", " pad ", "True", "None", "1 2", "2", "2.0", "0", "-0.0", "1000"]
+# fragments of numbers: none of them is a number, each is its own stripped text
+CELLS_FRAGMENTS = ["-", "+", ".", "e", "-.", "1e", "e5", "+-1", "--1", "1-", "0x", "1__0", "_1", "1_", "٣.٥", "1,5", "٫", "−1", "+ 1", "", "7"]
 CELLS_SMALL = ["", " ", "7", " 2 ", "1.5", "abc", "inf", "a,b", "x\r\ny"]
 # characters that str.splitlines() treats as line boundaries but the csv module (and a text file opened the usual way) does not
 CELLS_SEPS = ["a\x0bb", "a\x0cb", "a\x1cb", "a\x1db", "a\x1eb", "a\x85b", "a\u2028b", "a\u2029b", "7", ""]
@@ -101,6 +103,15 @@ def run_case(agg, tmpdir, header, records, delim, has_header, how):
             else:
                 with open(p, "r", encoding="utf-8", newline="") as f:
                     t = read_csv(f, delimiter=delim, has_header=has_header)
+                    # the handle belongs to the caller: still open, and reading it again from the start gives the same table
+                    if f.closed:
+                        agg.violation(V("read_csv.file", "closes-the-callers-handle", case, "open", "closed", py))
+                        return
+                    f.seek(0)
+                    t_again = read_csv(f, delimiter=delim, has_header=has_header)
+                    if [(c._name, [repr(x) for x in c._underlying]) for c in t_again._underlying] != [(c._name, [repr(x) for x in c._underlying]) for c in t._underlying]:
+                        agg.violation(V("read_csv.file", "second-read-of-the-same-handle-differs", case, None, None, py))
+                        return
     except Exception as e:
         kind = "empty-input" if names is None else ("header-only" if not data else "data")
         agg.violation(V(f"read_csv.{how}", f"raises-{type(e).__name__}-on-{kind}", case, {"names": names, "columns": cols}, repr(e)[:100], py))
@@ -270,6 +281,8 @@ def check(ctx):
     units += [("w1", CELLS_SEPS, h) for h in (("h",), ("a\x0cb",))]
     units += [("w2", CELLS_SEPS, ("h", "g"), first) for first in CELLS_SEPS]
     units += [("long", txt) for txt in ("7", "2.5", "x", "")]
+    units += [("w1", CELLS_FRAGMENTS, ("h",))]
+    units += [("w2", CELLS_FRAGMENTS[:8] + ["", "7"], ("h", "g"), first) for first in CELLS_FRAGMENTS[:8] + ["", "7"]]
     units.append(("empty",))
     agg = core.merge_all(core.pmap(run_unit, units))
     agg.notes["bound"] = f"width-1 grids over {len(cells1)} cell texts, width-2 grids over {len(cells2)}; <=2 records"
